@@ -1,6 +1,10 @@
 import DSV.Lemmas.Median
 import DSV.Lemmas.Mct
 import DSV.LLO.Plugin
+import DSV.Lemmas.Outcome
+import DSV.Lemmas.Tally
+import DSV.Lemmas.AggsFun
+import DSV.Props.C11
 /-!
 # C02 — LLO numeric aggregates and the outcome timestamp stay within the honest range
 
@@ -347,6 +351,56 @@ theorem outcome_ts_range (tss hts bts : List Nat) (hperm : tss.Perm (hts ++ bts)
     (∃ lo ∈ hts, lo ≤ medianTimestamp tss) ∧ (∃ hi ∈ hts, medianTimestamp tss ≤ hi) := by
   have := medianOf_honest (fun a b => decide (a ≤ b)) natLe_total natLe_trans tss hts bts hperm hmaj
   simpa [medianTimestamp] using this
+
+/-- **outcome timestamp, at the level of `Outcome()`**: the timestamps that enter the median are
+    exactly those of the contributing observations (`counted`: decoded, and not dropped for an
+    attestation that fails to verify); if the correct observers' timestamps `hts` outnumber the others
+    among them, the outcome's observation timestamp lies between two correct timestamps -/
+theorem outcome_ts_honest (env : Env) (cfg : Cfg) (σ : Sched) (n : Nat) (prev o : Outcome) (obs : List Obs)
+    (hobs : ∀ x ∈ obs, ObsWF env x) (h : outcome env cfg σ n prev obs = .ok o)
+    (hts bts : List Nat) (hsplit : ((counted env obs).map (·.ts)).Perm (hts ++ bts))
+    (hmaj : bts.length < hts.length) :
+    (∃ lo ∈ hts, lo ≤ o.ts) ∧ (∃ hi ∈ hts, o.ts ≤ hi) := by
+  obtain ⟨_, t, ht, _, _, hts', _⟩ := outcome_ok h
+  obtain ⟨hinv, _⟩ := tally_spec env cfg obs t hobs ht
+  rw [hts', hinv.tss]
+  exact outcome_ts_range _ hts bts hsplit hmaj
+
+/-- **median aggregate, at the level of `Outcome()`**: for a stream that some channel of the new
+    outcome aggregates with the median, the value list handed to the aggregator is exactly what the
+    contributing observations reported for the stream; if the correct observers' (same-typed decimal
+    or quote) values outnumber the other entries and there are more than `f` of them, the outcome
+    holds a fresh decimal aggregate for the stream lying between two correct values -/
+theorem outcome_median_honest (env : Env) (cfg : Cfg) (σ : Sched) (hσ : σ.IsSched) (n : Nat) (prev o : Outcome)
+    (obs : List Obs) (hvals : ∀ x ∈ obs, GoMap.WF x.values) (h : outcome env cfg σ n prev obs = .ok o)
+    (sid : Nat) (href : ∃ e ∈ o.defs, (⟨sid, aggMedian⟩ : Stream) ∈ e.2.streams)
+    (hs : List SV) (bs : List (Option SV)) (t0 : Nat)
+    (hsplit : ((counted env obs).filterMap (obsValue sid)).Perm (hs.map some ++ bs)) (hmaj : bs.length < hs.length)
+    (hty : ∀ x ∈ hs, x.type = t0) (ht0 : t0 = 0 ∨ t0 = 1) (hf : cfg.f < hs.length) :
+    ∃ d, o.aggs.get? (sid, aggMedian) = some (.dec d) ∧
+      (∃ lo ∈ hs, Dec.le (decOf lo) d = true) ∧ (∃ hi ∈ hs, Dec.le d (decOf hi) = true) := by
+  obtain ⟨_, t, ht, _, _, _, _, _, hagg⟩ := outcome_ok h
+  have hso := tally_streamObs env cfg obs t hvals ht sid
+  have hnp : ∀ k, aggOneValue cfg prev t.streamObs k ≠ .panic := fun k =>
+    aggOneValue_no_panic cfg prev t.streamObs k (fun r hr => C11.aggregate_never_panics _ _ _ r hr)
+  have hfun := aggregateAll_fun cfg prev t.streamObs (σ.defsAgg o.defs) hnp
+  rw [hagg] at hfun
+  obtain ⟨_, _, hget⟩ := hfun
+  -- the pair is among the processed pairs
+  have hmem : (sid, aggMedian) ∈ ((σ.defsAgg o.defs).flatMap (·.2.streams)).map (fun s => (s.sid, s.agg)) := by
+    obtain ⟨e, he, hs'⟩ := href
+    simp only [List.mem_map, List.mem_flatMap]
+    exact ⟨⟨sid, aggMedian⟩, ⟨e, (hσ.2.2.2.2.1 o.defs).mem_iff.mpr he, hs'⟩, rfl⟩
+  rw [hget, if_pos hmem]
+  -- the median over the collected values
+  obtain ⟨hex, hrange⟩ := median_dec_range ((t.streamObs.get? sid).getD []) cfg.f hs bs t0
+    (by rw [hso]; exact hsplit) hmaj hty ht0
+  obtain ⟨r, hr⟩ := hex hf
+  obtain ⟨d, hd, hlo, hhi⟩ := hrange r hr
+  subst hd
+  refine ⟨d, ?_, hlo, hhi⟩
+  unfold valueOf aggOneValue aggregate
+  simp only [aggMedian, if_true, hr, GoRes.bind]
 
 /-- non-vacuity of the split hypotheses: two correct decimals, one arbitrary entry (f = 1) -/
 example : ([some (SV.dec ⟨1, 0⟩), none, some (SV.dec ⟨2, 0⟩)] : List (Option SV)).Perm
